@@ -39,6 +39,8 @@ def has_coord(k) -> bool:
     if isinstance(k, tuple):
         if k[0] in ("TUPLE", "ZIP"):
             return any(has_coord(x) for x in k[1])
+        if k[0] == "REC":
+            return any(has_coord(v) for _, v in k[2])
         return any(has_coord(x) for x in k[1:])
     return False
 
@@ -179,6 +181,8 @@ class _Typer:
                     self.bind(e, PC)
                 elif v == VEC:
                     self.bind(e, VC)
+                elif isinstance(v, tuple) and v[0] == "REC" and i < len(v[2]):
+                    self.bind(e, v[2][i][1])
                 elif isinstance(v, tuple) and v[0] == "LIST":
                     self.bind(e, v[1])  # a, b, c = [f(x) for x in ...]: every name gets the element kind
                 else:
@@ -283,6 +287,8 @@ class _Typer:
     def e_Attribute(self, e):
         b = self.ev(e.value)
         a = e.attr
+        if isinstance(b, tuple) and b[0] == "REC":
+            return dict(b[2]).get(a, UNK)  # field of a record built in the analysed code (NamedTuple / plain dataclass)
         if b == ATOM:
             return {"x": PC, "y": PC, "z": PC, "coordinates": PT, "occupancy": INV}.get(a, ID)
         if b == RES:
@@ -316,6 +322,8 @@ class _Typer:
         if isinstance(b, tuple) and b[0] == "TUPLE":
             if isinstance(e.slice, ast.Constant) and isinstance(e.slice.value, int) and -len(b[1]) <= e.slice.value < len(b[1]):
                 return b[1][e.slice.value]
+            if isinstance(e.slice, ast.Slice) and b[1] and len(set(map(repr, b[1]))) == 1:
+                return L(b[1][0])  # a slice of a tuple whose members are all of one kind
             return UNK
         return ID if b == ID else UNK
 
@@ -527,6 +535,8 @@ class _Typer:
                     self.err(e, f"{f}(...) receives a coordinate-dependent value of kind {a}")
             return {"Residue3D": RES, "Structure3D": STRUCT}.get(f, ID)
         if f in ("range", "enumerate", "zip", "list", "set", "dict", "tuple", "defaultdict", "OrderedSet", "str", "int", "bool", "isinstance", "filter", "next", "all", "any", "map", "reversed", "iter", "frozenset", "print", "hash"):
+            if f == "map" and len(e.args) == 2 and isinstance(e.args[0], ast.Attribute) and e.args[0].attr == "find_atom":
+                return L(ATOM)  # map(residue.find_atom, names): the atoms fetched by name (None for the missing ones)
             if f == "zip" and args and not kws:
                 return ("ZIP", list(args))
             if f in ("reversed", "set", "frozenset", "filter") and args and args[-1] in (PT, VEC):
@@ -539,9 +549,20 @@ class _Typer:
                 return L(("TUPLE", [ID, self.elem(args[0]) if isinstance(args[0], tuple) else UNK]))
             if f == "defaultdict":
                 return D(UNK, UNK)
+            if f == "dict" and len(args) == 1 and isinstance(args[0], tuple) and args[0][0] == "LIST" and isinstance(args[0][1], tuple) and args[0][1][0] == "TUPLE" and len(args[0][1][1]) == 2:
+                return D(args[0][1][1][0], args[0][1][1][1])  # dict(<list of (key, value) pairs>)
+            if f == "dict" and len(args) == 1 and isinstance(args[0], tuple) and args[0][0] == "DICT":
+                return args[0]
             return ID if f in ("range", "str", "int", "bool", "isinstance", "all", "any", "hash") else UNK
         if f.startswith("logging.") or f.startswith("logger."):
             return NONE
+        # a record class of the analysed module (NamedTuple / dataclass without methods): the value carries the kinds of its fields
+        if isinstance(e.func, ast.Name):
+            rec = self._record_fields(e.func.id)
+            if rec is not None and len(args) + len(kws) <= len(rec):
+                vals = dict(zip(rec, args))
+                vals.update({k: v for k, v in kws.items() if k in rec})
+                return ("REC", e.func.id, [(f, vals.get(f, UNK)) for f in rec])
         # repo callees: analyse with the actual argument kinds
         callee, recv = self._resolve(e)
         if callee is not None:
@@ -562,6 +583,21 @@ class _Typer:
         if any(has_coord(a) for a in args) or any(has_coord(v) for v in kws.values()):
             self.err(e, f"coordinate-dependent value passed to `{f}`, which is not known to be rotation/translation-equivariant")
         return UNK
+
+    def _record_fields(self, name: str) -> Optional[List[str]]:
+        try:
+            hm, hn = self.eng.repo.const_home(self.fi.module.name, name)
+            c = self.eng.repo.modules[hm].classes.get(hn)
+        except Exception:
+            return None
+        if c is None or any(isinstance(b, (ast.FunctionDef, ast.AsyncFunctionDef)) for b in c.body):
+            return None
+        is_nt = any(ast.unparse(b).endswith("NamedTuple") for b in c.bases)
+        is_dc = any("dataclass" in ast.unparse(d) for d in c.decorator_list)
+        if not (is_nt or is_dc):
+            return None
+        fields = [b.target.id for b in c.body if isinstance(b, ast.AnnAssign) and isinstance(b.target, ast.Name)]
+        return fields or None
 
     def _resolve(self, e: ast.Call) -> Tuple[Optional[FuncInfo], Any]:
         repo = self.eng.repo
